@@ -496,7 +496,8 @@ def _is_range_in(starts, idx):
     return idx == list(range(idx[0], idx[0] + len(idx))) and idx[0] in starts
 
 
-GAP = {"n": 0, "nonzero": 0, "max": 0.0}     # rounding gap of the intersection score on identical windows
+GAP = {"n": 0, "nonzero": 0, "negative": 0, "max": 0.0, "alarms": 0}     # rounding gap of the intersection score on identical windows
+STRICT_ZERO = __import__("os").environ.get("C11_STRICT_ZERO") == "1"     # demand exactly 0 / no alarm on identical windows (fails on the unchanged tree)
 
 
 def multiset_periodic(case):
@@ -561,6 +562,11 @@ def direct_check(case, obs):
                 GAP["n"] += 1
                 GAP["nonzero"] += gap != 0.0
                 GAP["max"] = max(GAP["max"], gap)
+                GAP["negative"] += r["score"] < 0
+                GAP["alarms"] += r["ds"] == "drift"
+                if STRICT_ZERO and (gap != 0.0 or r["ds"] == "drift"):
+                    return [f"{where}: the test window equals the reference window (as a multiset of rows) but the intersection change score is {r['score']!r} "
+                            f"and drift_state is {r['ds']!r}"]
                 if gap > 4 * sp["bins"] * 2.0 ** -53:
                     return [f"{where}: the test window equals the reference window (as a multiset of rows) but the intersection change score is {r['score']!r}, "
                             f"not 0 up to the rounding of the normalisation (bound {4 * sp['bins'] * 2.0 ** -53!r})"]
@@ -703,6 +709,28 @@ WITNESS_STEP0 = {"params": {"window_size": 10, "ev_threshold": 0.99, "delta": 0.
                  "data": [[float((3 * i) % 7), float((5 * i) % 11)] for i in range(21)], "kind": "witness-step0"}
 
 
+def _arith_block(w, a):
+    return [[float((a * i) % 17), float((i * i + a) % 23)] for i in range(w)]
+
+
+# identical windows, intersection metric: the score is -2^-52 instead of 0 and Page-Hinkley (threshold 1 * negative mean) alarms at update 201
+WITNESS_EQUAL_WINDOWS_ALARM = {"params": {"window_size": 100, "ev_threshold": 0.99, "delta": 0.1, "divergence_metric": "intersection",
+                                          "sample_period": 0.05, "online_scaling": True},
+                               "data": [_arith_block(100, 6)[i % 100] for i in range(203)], "kind": "periodic", "periodic": True}
+
+
+def finding_witnesses():
+    """(signature, message, case) of the two recorded discrepancies; rename to `witnesses(ctx)` once known_findings.json lists them"""
+    out = []
+    o = run_impl(WITNESS_STEP0)
+    if any("error" in r for r in o["rows"]):
+        out.append(({"step_zero": True}, "PCACD(window_size=10): ZeroDivisionError at update 21 (step = round(0.5) = 0)", WITNESS_STEP0))
+    o = run_impl(WITNESS_EQUAL_WINDOWS_ALARM)
+    if any(r.get("ds") == "drift" for r in o["rows"]):
+        out.append(({"equal_windows_alarm": True}, "identical windows: intersection score -2.2e-16, drift reported at update 201", WITNESS_EQUAL_WINDOWS_ALARM))
+    return out
+
+
 def step_of(w, sp):
     return min(100, py_round_exact(sp * w))
 
@@ -766,14 +794,19 @@ def gen_cases(ctx):
                 n = ctx.rng.randint(int(4.5 * w), 6 * w) if w >= 100 else ctx.rng.randint(6 * w, 10 * w)
                 add({"params": p, "data": shift_stream(ctx.rng, n, ctx.rng.randint(2, 5), w, kinds[k % 4]), "kind": kinds[k % 4]})
                 k += 1
-    for _ in range(ctx.scale(8, 300)):
+    for _ in range(ctx.scale(14, 300)):
         p = gen_params(ctx)
         w = p["window_size"]
         n = ctx.rng.randint(4 * w, 6 * w) if w >= 100 else ctx.rng.randint(5 * w, 10 * w)
         kind = ctx.rng.choice(kinds)
         add({"params": p, "data": shift_stream(ctx.rng, n, ctx.rng.randint(2, 5), w, kind), "kind": kind})
     # test window = reference window: stream periodic with period window_size
-    for _ in range(ctx.scale(6, 80)):
+    add(dict(WITNESS_EQUAL_WINDOWS_ALARM))
+    for a, w, scaling in ((7, 100, True), (20, 160, False)) if not ctx.thorough else [(a, w, sc) for a in range(1, 12) for w in (100, 160) for sc in (True, False)]:
+        blk = _arith_block(w, a)
+        add({"params": dict(WITNESS_EQUAL_WINDOWS_ALARM["params"], window_size=w, online_scaling=scaling),
+             "data": [blk[i % w] for i in range(2 * w + 2 * step_of(w, 0.05) + 2)], "kind": "periodic", "periodic": True})
+    for _ in range(ctx.scale(8, 80)):
         p = dict(gen_params(ctx, ctx.rng.choice([20, 50, 80, 100])), divergence_metric=ctx.rng.choice(["intersection", "intersection", "kl"]))
         w = p["window_size"]
         dim = ctx.rng.randint(2, 5)
@@ -782,7 +815,7 @@ def gen_cases(ctx):
         n = ctx.rng.randint(3 * w, 5 * w)
         add({"params": p, "data": [list(block[i % w]) for i in range(n)], "kind": "periodic", "periodic": True})
     # shorter than two windows / just at the boundary: must stay silent
-    for _ in range(ctx.scale(4, 40)):
+    for _ in range(ctx.scale(6, 40)):
         p = gen_params(ctx, ctx.rng.choice([20, 50]))
         w = p["window_size"]
         n = ctx.rng.choice([1, w - 1, w, w + 1, 2 * w - 1, 2 * w, 2 * w + 1, 2 * w + 2])
@@ -811,11 +844,16 @@ def intensify(case):
 def signature(case, obs, msgs):
     p = case["params"]
     return {"step_zero": step_of(p["window_size"], p["sample_period"]) == 0,
-            "zero_division": any("ZeroDivisionError" in m for m in msgs)}
+            "zero_division": any("ZeroDivisionError" in m for m in msgs),
+            "equal_windows_alarm": bool(case.get("periodic")) and p["divergence_metric"] == "intersection"
+                                   and any(r.get("ds") == "drift" for r in obs.get("rows", []))}
 
 
 def extra(ctx):
-    return {"equal_windows_intersection_scores": GAP["n"], "of_which_not_exactly_zero": GAP["nonzero"],
+    return {"equal_windows_intersection_scores": GAP["n"], "of_which_not_exactly_zero": GAP["nonzero"], "of_which_negative": GAP["negative"],
             "max_abs_score_on_equal_windows": GAP["max"], "stated_bound": "4 * bins * 2^-53",
+            "drifts_reported_on_equal_windows": GAP["alarms"],
+            "finding_equal_windows_alarm": "identical windows can score -2^-52 (rounding of the normalisation) and then Page-Hinkley alarms at the first check when "
+                                           "ph_threshold >= 1 (threshold * negative mean < 0 = PH difference); witness WITNESS_EQUAL_WINDOWS_ALARM, see notes/design_C11.md",
             "finding_step_zero": "PCACD(window_size=10) (any round(sample_period*window_size) == 0) raises ZeroDivisionError at update 2*window_size+1; "
                                  "excluded from the generators, witness WITNESS_STEP0 in harness/c11.py, see notes/design_C11.md"}
